@@ -58,10 +58,22 @@ pub fn run(rec: &mut Recorder, w: &mut World, tier: &str, seed: u64) {
         if r0 != "ok" { if cached { rec.exec(w, "e.cached\tfalse"); } continue; }
         let reqs = requests(&k);
         let reqf = enc_reqs(&reqs);
+        // every sixth configuration with role definitions starts with links pending: role-link building is switched off, a few
+        // grouping rules are added, and it is switched on again without a rebuild - the steps that follow are ordinary single
+        // additions and removals, and each of them must still be monotone
+        let mut pending: Vec<(usize, Vec<String>)> = vec![];
+        if !k.g.is_empty() && ci % 6 == 5 {
+            rec.exec(w, "e.auto\tbuild\tfalse");
+            for _ in 0..2 + rng.below(2) { let gi = rng.below(k.g.len()); let r = rng.pick(&k.links[gi]).clone();
+                if rec.exec(w, &MOp::Add("g".into(), k.g[gi].0.clone(), r.clone()).line()) == "true" { pending.push((gi, r)); } }
+            rec.exec(w, "e.auto\tbuild\ttrue");
+            rec.count("setup:links-pending");
+        }
         let steps = 1 + rng.below(4);
         let mut before = rec.exec(w, &ask(&reqf));
         let mut cur_rules = rules.clone();
         let mut descr: Vec<String> = vec![];
+        if !pending.is_empty() { descr.push(format!("[links added while building was off, then building switched on: {:?}]", pending)); }
         for _ in 0..steps {
             // one single-step addition / removal of a rule or a link
             let (line, kind): (String, &str) = match rng.below(if k.g.is_empty() { 2 } else { 4 }) {
@@ -75,6 +87,7 @@ pub fn run(rec: &mut Recorder, w: &mut World, tier: &str, seed: u64) {
                 // an addition
                 2 if rng.chance(1, 6) => { let gi = rng.below(k.g.len()); let r = rng.pick(&k.links[gi]).clone(); let short = vec![r[0].clone()]; rec.count("step:link-batch-with-unlinkable-rule"); (MOp::AddM("g".into(), k.g[gi].0.clone(), vec![r, short]).line(), "add-link") }
                 2 => { let gi = rng.below(k.g.len()); let r = rng.pick(&k.links[gi]).clone(); (MOp::Add("g".into(), k.g[gi].0.clone(), r).line(), "add-link") }
+                _ if !pending.is_empty() && rng.chance(1, 2) => { let (gi, r) = pending.remove(rng.below(pending.len())); rec.count("step:remove-pending-link"); (MOp::Rm("g".into(), k.g[gi].0.clone(), r).line(), "remove-link") }
                 _ => { let gi = rng.below(k.g.len()); let r = rng.pick(&k.links[gi]).clone(); (MOp::Rm("g".into(), k.g[gi].0.clone(), r).line(), "remove-link") }
             };
             let store_was_empty = rec.exec(w, &format!("e.get\tp\t{}", pk)) == "-";
